@@ -1133,6 +1133,28 @@ static int sch_etrs(sess_t *s) {
 			}
 			s->blen[5] = size;
 			s->blen[4] = size - 1;			/* entries of td/y consumed by the extensions */
+			{
+				fault_t *f = find_fault(s, "forge");
+				if (f && !strcmp(f->kind, "v_forgeext") && size < 3) {
+					/* a ring member forged without using up a trapdoor slot: a fresh evaluation point, h = [t]G for
+					 * a known t and a proof for the h-side, exactly what cp_etrs_ext builds - but the point is not
+					 * on the polynomial.  Nobody signed for it, so it must not count towards a threshold. */
+					ec_t w[2];
+					bn_t t;
+					bn_null(t); bn_new(t);
+					ec_null(w[0]); ec_null(w[1]); ec_new(w[0]); ec_new(w[1]);
+					bn_rand_mod(t, ord);
+					bn_rand_mod(ra[size]->y, ord);
+					ec_mul_gen(ra[size]->h, t);
+					ec_copy(ra[size]->pk, s->e[1 + size]);
+					ec_copy(w[0], ra[size]->h);
+					ec_copy(w[1], ra[size]->pk);
+					cp_sokor_sig(ra[size]->c, ra[size]->r, s->msg, s->msg_len, (const ec_t *)w, NULL, t, 1);
+					s->blen[5] = size + 1;
+					tr_printf("NOTE %d forged-extension\n", s->sid);
+					ec_free(w[0]); ec_free(w[1]); bn_free(t);
+				}
+			}
 			return 1;
 		}
 		case 3: {
